@@ -1,6 +1,5 @@
 /-
-  Helper lemmas for C18 / C01: the allocation does not depend on the hash-iteration order of `names`
-  as long as no default-located instance name is ambiguous between id 2/17 and another reserved id.
+  Helper lemmas for C18 / C01: the allocation (after commit c4dd162) does not depend on the hash-iteration order of `names`.
   Core Lean only.
 -/
 import FontcProofs.NamesAlloc
@@ -75,110 +74,36 @@ theorem initReusable_dom_perm {names : Table} {o₁ o₂ : List NameKey} (hp : o
   · rintro ⟨k, hk, h⟩; exact ⟨k, hp.mem_iff.mp hk, h⟩
   · rintro ⟨k, hk, h⟩; exact ⟨k, hp.mem_iff.mpr hk, h⟩
 
-/-- When the two orders decide differently for a default-located instance, a source record with a font-specific id
-    already carries its name (under the unambiguity hypothesis). -/
-theorem decision_differs {names : Table} {o₁ o₂ : List NameKey} (hn : (akeys names).Nodup)
-    (p₁ : o₁.Perm (akeys names)) (p₂ : o₂.Perm (akeys names)) (ni : Inst)
-    (hun : ni.atDefault = true →
-      (∃ k, (k, ni.name) ∈ names ∧ 255 < k.id) ∨
-      (∀ k, (k, ni.name) ∈ names → isSub k.id = true) ∨
-      (∀ k, (k, ni.name) ∈ names → isSub k.id = false))
-    (hd : reuseSubfamily o₁ names ni ≠ reuseSubfamily o₂ names ni) :
-    (alookup ni.name (initReusable o₁ names)).isSome ∧ (alookup ni.name (initReusable o₂ names)).isSome := by
-  -- an all-or-nothing situation makes both orders decide the same
-  have key : ∀ (o o' : List NameKey), o.Perm (akeys names) → o'.Perm (akeys names) →
-      reuseSubfamily o names ni = true → reuseSubfamily o' names ni = false →
-      ∃ k, (k, ni.name) ∈ names ∧ 255 < k.id := by
-    intro o o' po po' ht hf
-    unfold reuseSubfamily at ht hf
-    simp only [Bool.and_eq_true] at ht
-    obtain ⟨hdef, hm⟩ := ht
-    simp only [hdef, Bool.true_and] at hf
-    split at hm
-    · next id hfm =>
-      obtain ⟨k, hko, hk, hkid⟩ := firstMatch_some hfm
-      have hkn : (k, ni.name) ∈ names := mem_of_alookup hk
-      rcases hun hdef with h | h | h
-      · exact h
-      · -- all carriers are subfamily ids: the other order reuses as well
-        exfalso
-        split at hf
-        · next id' hfm' =>
-          obtain ⟨k', _, hk', hkid'⟩ := firstMatch_some hfm'
-          have := h k' (mem_of_alookup hk')
-          rw [hkid'] at this; rw [this] at hf; cases hf
-        · next hnone =>
-          have hk' : k ∈ o' := po'.mem_iff.mpr (po.mem_iff.mp hko)
-          exact firstMatch_none hnone k hk' hk
-      · exfalso
-        have := h k hkn
-        rw [hkid] at this; rw [this] at hm; cases hm
-    · cases hm
-  have hex : ∃ k, (k, ni.name) ∈ names ∧ 255 < k.id := by
-    cases h₁ : reuseSubfamily o₁ names ni <;> cases h₂ : reuseSubfamily o₂ names ni
-    · simp [h₁, h₂] at hd
-    · exact key o₂ o₁ p₂ p₁ h₂ h₁
-    · exact key o₁ o₂ p₁ p₂ h₁ h₂
-    · simp [h₁, h₂] at hd
-  obtain ⟨k, hk, hid⟩ := hex
-  have hkey : k ∈ akeys names := List.mem_map.mpr ⟨(k, ni.name), hk, rfl⟩
-  have hl := alookup_of_mem_nodup hn hk
-  exact ⟨(isSome_initReusable _ _).mpr ⟨k, p₁.mem_iff.mpr hkey, hl, hid⟩,
-         (isSome_initReusable _ _).mpr ⟨k, p₂.mem_iff.mpr hkey, hl, hid⟩⟩
-
-theorem rel_regInst {names : Table} {o₁ o₂ : List NameKey} (hn : (akeys names).Nodup)
-    (p₁ : o₁.Perm (akeys names)) (p₂ : o₂.Perm (akeys names)) (ni : Inst)
-    (hun : ni.atDefault = true →
-      (∃ k, (k, ni.name) ∈ names ∧ 255 < k.id) ∨
-      (∀ k, (k, ni.name) ∈ names → isSub k.id = true) ∨
-      (∀ k, (k, ni.name) ∈ names → isSub k.id = false))
+theorem rel_regInst {names : Table} {o₁ o₂ : List NameKey} (hp : o₁.Perm o₂) (ni : Inst)
     {st₁ st₂ : St} (h : Rel (initReusable o₁ names) (initReusable o₂ names) st₁ st₂) :
     Rel (initReusable o₁ names) (initReusable o₂ names) (regInst o₁ names st₁ ni) (regInst o₂ names st₂ ni) := by
-  have hdom := initReusable_dom_perm (names := names) (p₁.trans p₂.symm)
-  -- after the subfamily-name step the states are still related
+  have hdom := initReusable_dom_perm (names := names) hp
   have hstep : Rel (initReusable o₁ names) (initReusable o₂ names)
       (if reuseSubfamily o₁ names ni then st₁ else register st₁ ni.name)
       (if reuseSubfamily o₂ names ni then st₂ else register st₂ ni.name) := by
-    by_cases hd : reuseSubfamily o₁ names ni = reuseSubfamily o₂ names ni
-    · rw [hd]
-      split
-      · exact h
-      · exact rel_register hdom h _
-    · obtain ⟨k₁, k₂⟩ := decision_differs hn p₁ p₂ ni hun hd
-      obtain ⟨r₁, r₂⟩ := rel_register_known h k₁ k₂
-      split <;> split
-      all_goals first | exact h | (rw [r₁]; exact h) | (rw [r₂]; exact h) | (rw [r₁, r₂]; exact h)
+    rw [reuseSubfamily_perm hp ni]
+    split
+    · exact h
+    · exact rel_register hdom h _
   unfold regInst
   cases ni.ps with
   | none => exact hstep
   | some p => exact rel_register hdom hstep p
 
-theorem rel_foldl_regInst {names : Table} {o₁ o₂ : List NameKey} (hn : (akeys names).Nodup)
-    (p₁ : o₁.Perm (akeys names)) (p₂ : o₂.Perm (akeys names)) (l : List Inst)
-    (hun : ∀ ni ∈ l, ni.atDefault = true →
-      (∃ k, (k, ni.name) ∈ names ∧ 255 < k.id) ∨
-      (∀ k, (k, ni.name) ∈ names → isSub k.id = true) ∨
-      (∀ k, (k, ni.name) ∈ names → isSub k.id = false))
+theorem rel_foldl_regInst {names : Table} {o₁ o₂ : List NameKey} (hp : o₁.Perm o₂) (l : List Inst)
     {st₁ st₂ : St} (h : Rel (initReusable o₁ names) (initReusable o₂ names) st₁ st₂) :
     Rel (initReusable o₁ names) (initReusable o₂ names) (l.foldl (regInst o₁ names) st₁) (l.foldl (regInst o₂ names) st₂) := by
   induction l generalizing st₁ st₂ with
   | nil => exact h
-  | cons ni t ih =>
-    exact ih (fun n hn' => hun n (List.mem_cons_of_mem _ hn'))
-      (rel_regInst hn p₁ p₂ ni (hun ni List.mem_cons_self) h)
+  | cons ni t ih => exact ih (rel_regInst hp ni h)
 
-theorem alloc_perm_invariant_of_unambiguous (x : Input) (o₁ o₂ : List NameKey) (hn : (akeys x.names).Nodup)
-    (p₁ : o₁.Perm (akeys x.names)) (p₂ : o₂.Perm (akeys x.names))
-    (hun : ∀ ni ∈ effInsts x, ni.atDefault = true →
-      (∃ k, (k, ni.name) ∈ x.names ∧ 255 < k.id) ∨
-      (∀ k, (k, ni.name) ∈ x.names → isSub k.id = true) ∨
-      (∀ k, (k, ni.name) ∈ x.names → isSub k.id = false)) :
-    alloc o₁ x = alloc o₂ x := by
-  have hdom := initReusable_dom_perm (names := x.names) (p₁.trans p₂.symm)
+/-- The allocation is independent of the hash-iteration order of `names`: full strength, every input. -/
+theorem alloc_perm (x : Input) (o₁ o₂ : List NameKey) (hp : o₁.Perm o₂) : alloc o₁ x = alloc o₂ x := by
+  have hdom := initReusable_dom_perm (names := x.names) hp
   have h0 : Rel (initReusable o₁ x.names) (initReusable o₂ x.names)
-      ⟨initReusable o₁ x.names, 255⟩ ⟨initReusable o₂ x.names, 255⟩ := ⟨⟨[], by simp⟩, rfl⟩
+      ⟨initReusable o₁ x.names, maxId x.names⟩ ⟨initReusable o₂ x.names, maxId x.names⟩ := ⟨⟨[], by simp⟩, rfl⟩
   have h1 := rel_foldl_register hdom x.labels h0
-  have h2 := rel_foldl_regInst hn p₁ p₂ (effInsts x) hun h1
+  have h2 := rel_foldl_regInst hp (effInsts x) h1
   obtain ⟨⟨f, e₁, e₂⟩, _⟩ := h2
   have a₁ : (allocState o₁ x).reusable = initReusable o₁ x.names ++ f := e₁
   have a₂ : (allocState o₂ x).reusable = initReusable o₂ x.names ++ f := e₂
